@@ -65,6 +65,13 @@ var props = []*prop{
 		Rule:     "one case = one simulated run: 1-6 concurrent callers x 1-4 calls through one real ServantProxy with tape-drawn proxy/per-call/context deadlines, dial/write/read time-outs and send-queue length; the peer's behaviour is drawn per connection (close on accept, never read, silent, garbage) and per request (immediate, never, around the deadline, late, close after request, half a response then close, reset, garbage, other id first), plus address faults (refused, black-holed, refuse-then-heal, crash and restart); a fault-free variant (every call must succeed) runs separately; distinct = distinct (event-log hash, switch trace hash); non-trivial = at least one preemption, stall or fired fault",
 	},
 	{
+		ID: "C10", Binary: "simgen", NeedsGen: true, Quick: 4000, Thorough: 100000, RunWall: 180 * time.Second,
+		Variants: []variant{{Scenario: "c10", Params: map[string]string{"proto": "tcp"}, Weight: 3}, {Scenario: "c10", Params: map[string]string{"proto": "udp"}, Weight: 1}},
+		Real:     []string{"tars.Protocol.Invoke / InvokeTimeout / rsp2Byte (instrumented)", "tars/transport: TarsServer.invoke (handle time-out), tcpHandler, udpHandler (instrumented)", "tars/util/gpool", "tars2go built from the working tree and the dispatcher it generates from /verif/idl/VerifAll.tars (real, atomic to the scheduler)", "tars/protocol codec, tup (real)"},
+		Stub:     append([]string{netStub, "clients -> scripted raw clients building TARS-, TUP- and JSON-versioned requests with the independent reference codec"}, commonStub...),
+		Rule:     "one case = one simulated run: real TarsServer (TCP or UDP) with the generated dispatcher, pool 0/1/2/4, queue capacity 2/8/1000, handle time-out 0/100ms/700ms; 1-4 raw clients pipelining 1-10 requests each: TARS/TUP/JSON version, two-way/one-way, addInts/echoString/fail(code,msg)/slow(ms)/tars_ping/unknown function, arbitrary (also negative) ids, time-outs 0/5-45ms/3s/60s, optionally behind a pool saturated for 600ms; UDP with datagram loss and duplication; distinct = distinct (event-log hash, switch trace hash); non-trivial = at least one preemption or fired fault",
+	},
+	{
 		ID: "C11", Binary: "simcore", Quick: 10000, Thorough: 200000, RunWall: 180 * time.Second,
 		Variants: []variant{{Scenario: "c11", Weight: 1}},
 		Real:     fullStackReal,
